@@ -508,6 +508,25 @@ fn boxed(ctx: &mut Ctx) {
             judge(ctx, "ElfSectionsTag::new", "", got, &want, decode::tag(bi::ELF, &want, true, true), false);
         });
     }
+    // ELF sections: every argument over boundary and escape values, on section data of several lengths
+    {
+        let mut xs: Vec<u32> = EDGE32.to_vec();
+        xs.extend([0xFF00, 0xFFF1, 0xFFF2, 0xFF1F, 40, 64]);
+        let datas: Vec<Vec<u8>> = [0usize, 27, 28, 43, 44, 40, 64, 80, 120, 128, 192].iter().map(|&n| (0..n).map(|i| marker(i, 49)).collect()).collect();
+        for data in &datas {
+            for &num in &[0u32, 1, 3, 0xFFFF] {
+                for &es in &[40u32, 64, 0, 48] {
+                    for &shndx in &xs {
+                        leaf!(ctx, "ElfSectionsTag::new", format!("num {} entry size {} shndx {:#x} on {} section bytes", num, es, shndx, data.len()), |ctx| {
+                            let want = bi::enc_elf(num, es, shndx, data);
+                            let got = ctx.call("new", || { let t = ElfSectionsTag::new(num, es, shndx, data); built_bi(ctx_dummy(), &*t, &|_, _| {}) });
+                            judge(ctx, "ElfSectionsTag::new", "", got, &want, vec![], false);
+                        });
+                    }
+                }
+            }
+        }
+    }
     // memory maps
     for n in [0usize, 1, 2, 3, 4, 10, 11, 255, 256, 257] {
         leaf!(ctx, "MemoryMapTag::new", format!("{} areas", n), |ctx| {
@@ -648,6 +667,7 @@ fn boxed(ctx: &mut Ctx) {
 fn run(ctx: &mut Ctx) {
     let arena = Arena::new(1);
     ctx.bound("sized", "every sized constructor of both crates: a marker argument tuple, {0,1,MAX,MAX-1,0x80..} per argument, every single-byte perturbation of every argument with {00,01,02,04,08,10,20,40,80,FF}; enumerated arguments over all variants; as_bytes() at every address residue the type's alignment permits");
+    ctx.bound("boxed_elf_arguments", "ElfSectionsTag::new: number 0/1/3/0xFFFF x entry size 40/64/0/48 x string-table index over EDGE32 + {0xFF00, 0xFFF1, 0xFFF2, 0xFF1F, 40, 64} x 11 section-data lengths (0..=192 bytes)");
     ctx.bound("boxed_relational", "heap constructors with related contents: every text of length <= 4 over {a, NUL, e-acute} for the three string kinds (interior, leading, repeated, trailing NULs); every sequence of 1..=3 (thorough: 4) memory areas / EFI descriptors over 7 ranges that are equal, contiguous, overlapping, empty, of different type or end just below 2^64");
     ctx.bound("boxed_bound", "heap constructors: content lengths 0..=24 (quick) / 0..=40 (every padding residue at least three times) and the lengths around 8- and 16-bit counter boundaries (254..257, 4095..4097, 65534..65537); 0..=4, 10, 11, 255..257 memory areas / EFI descriptors; three framebuffer colour-info variants with palettes of 0..=8, 254..257, 1000 and 65535 colours; 0..=24, 255..257, 16383, 16384 information requests");
     sized_boot(ctx, &arena);
